@@ -109,6 +109,21 @@ def gen(tier, seed):
         for r in range(1 if tier == 'quick' else 4):
             sp = Spelling(mode='rand', seed=seed * 100 + bi * 10 + r)
             mods.append(mk(f'm{n:04d}', f'{tag}/spelling=random{r}', sp)); n += 1
+    # method paths with several segments and generic arguments (`crate::support::sup::g::eq_le::<u8>`), in each of the four path spellings
+    from . import model
+    model.PATH_REWRITE = model.GENERIC_PATHS
+    try:
+        for bi, (tag, mk) in enumerate(bases()):
+            if tag.split('/')[0] not in ('C02', 'C03', 'C05', 'C07'):
+                continue
+            if tier == 'quick' and bi % 2 == 1:
+                continue
+            for j in range(4):
+                if tier == 'quick' and j in (0, 1) and (bi // 2 + j) % 2:
+                    continue      # quick: both string spellings always, the two token spellings in alternation
+                mods.append(mk(f'm{n:04d}', f'{tag}/generic-argument method paths/spelling=path#{j}', Spelling(force={'path': j}))); n += 1
+    finally:
+        model.PATH_REWRITE = None
     # several traits' attributes on the same item: one #[educe(A, B)] list vs. separate attributes in every rotation
     from . import p_c15
     for ti, (name, primary, cands, mk) in enumerate(p_c15.templates()):
